@@ -812,8 +812,27 @@ pub fn layer2_sharded(args: &Args, rep: &mut Report) {
             ChildEnd::TimedOut => format!("did not finish within {shard_secs} s"),
         };
         // the shard failed: find the definitions responsible, one child per definition
+        // (once a few definitions have been located the remaining ones are not narrowed any more:
+        // the verdict is already a violation and every further hang costs the full time limit)
+        if rep.violations.iter().filter(|v| v.tag == "HANG" || v.tag == "CRASH").count() >= 4 {
+            rep.notes.push(format!("shard {i} {why}; not narrowed to single definitions because enough failing definitions are already located"));
+            continue;
+        }
         let members: Vec<&crate::Entry> = entries.iter().filter(|e| e.idx % n == i).collect();
-        let singles: Vec<(usize, ChildEnd)> = members.par_iter().map(|e| (e.idx, run_child_limited(&exe, &with(["--only".into(), e.idx.to_string()]), single_secs, "1"))).collect();
+        let found = std::sync::atomic::AtomicUsize::new(0);
+        let singles: Vec<(usize, ChildEnd)> = members
+            .par_iter()
+            .filter_map(|e| {
+                if found.load(std::sync::atomic::Ordering::Relaxed) >= 4 {
+                    return None;
+                }
+                let end = run_child_limited(&exe, &with(["--only".into(), e.idx.to_string()]), single_secs, "1");
+                if !matches!(end, ChildEnd::Ok(_)) {
+                    found.fetch_add(1, std::sync::atomic::Ordering::Relaxed);
+                }
+                Some((e.idx, end))
+            })
+            .collect();
         let mut located = false;
         for (idx, end) in singles {
             let e = &entries[idx];
